@@ -9,14 +9,15 @@
     G:<o>:<pending>:<ref>   FidGet: the test of pending; the reference count afterwards
     R:<o>:<closed>:<ref>    retain: whether it saw the connection gone; the count afterwards
     I:<o>:<ref>        IncRef
-    D:<o>:<tbl>:<ref>  DecRef, first region (tbl: called by clunkPost/removePost); the count afterwards
+    T:<o>:<kept>       release(): whether the table still had its reference (Tclunk/Tremove post-handlers)
+    D:<o>:<ref>        DecRef, first region; the count afterwards
     U:<o>:<mine>       DecRef, second region: whether the table entry was this object
     X:<o>:<done>       destroy(): the flag before the test-and-set
     C:<o>              the file server's FidDestroy is called
     K                  Conn.close has closed conn.done (logged after the close; the model's
                        closeDone fires at the first region that depends on it)
     S:<o>,<o>,…|-      Conn.close: the copy of the table
-    V:<o>:<pending>    Conn.close: one fid of the copy
+    V:<o>:<pending>:<kept>   Conn.close: one fid of the copy; whether it took the table's reference
   The acceptor replays them on G9.FidLife.FS and compares everything the code saw with the
   model's state.  With `q` the connection is gone and all its goroutines have ended: the end
   state must be quiescent.  Answer: `ok n=<objects> nd=[FidDestroy calls per object]`, or
@@ -81,11 +82,15 @@ def fobserve (s : FS) (tok : String) : FR FS :=
     let s ← ffire s (.inc o)
     fexpect "fid.inc: refcount" ((s.obj o).ref == r) s!"model {(s.obj o).ref}"
     pure s
-  | ["D", o, t, r] => do
+  | ["T", o, k] => do
     let some o := o.toNat? | .error "bad object"
-    let some t := bool01? t | .error "bad flag"
+    let some k := bool01? k | .error "bad flag"
+    fexpect "fid.release: table reference" ((s.obj o).tbl == k) s!"model {(s.obj o).tbl}"
+    ffire s (.release o)
+  | ["D", o, r] => do
+    let some o := o.toNat? | .error "bad object"
     let some r := r.toInt? | .error "bad count"
-    let s ← ffire s (.dec o t)
+    let s ← ffire s (.dec o)
     fexpect "fid.dec: refcount" ((s.obj o).ref == r) s!"model {(s.obj o).ref}"
     pure s
   | ["U", o, m] => do
@@ -106,11 +111,13 @@ def fobserve (s : FS) (tok : String) : FR FS :=
     let some l := natList? l | .error "bad list"
     let s ← ensureClosed s
     ffire s (.snapshot l)
-  | ["V", o, p] => do
+  | ["V", o, p, k] => do
     let some o := o.toNat? | .error "bad object"
     let some p := bool01? p | .error "bad flag"
+    let some k := bool01? k | .error "bad flag"
     fexpect "close.visit: next fid of the copy" (s.snap.bind List.head? == some o) s!"model {repr s.snap}"
     fexpect "close.visit: pending" ((s.obj o).pending == p) s!"model {(s.obj o).pending}"
+    fexpect "close.visit: table reference taken" ((!(s.obj o).pending && (s.obj o).tbl) == k) s!"model pending={(s.obj o).pending} kept={(s.obj o).tbl}"
     ffire s .visit
   | _ => .error "bad observation"
 
